@@ -5,6 +5,7 @@ V = os.path.dirname(os.path.dirname(os.path.abspath(__file__)))
 props = [json.loads(l) for l in open(os.path.join(V, "properties.jsonl"))]
 
 TECH = "TLA+ model checking (TLC) + trace validation of real executions"
+SIG = 'Signalling.tla (one action per handled websocket message: join/leave/disconnect, chat, moderation, group actions, token creation, with chat history) is checked exhaustively through SigMonitor for 3 clients x 2 groups up to 3 stimuli; TLC-simulated stimulus sequences and regression behaviours are executed against the REAL server (child process, real websockets and HTTP) and the observed messages are judged by the same monitor in Trace_Signalling.'
 CLAIMS = {
  "C01": ("model_checking",
          "SeqMap.tla (packetmap's interval table as Layer I, the closed form of the property as Layer P) is checked exhaustively by TLC at small constants over every arrival/drop history inside the re-synchronisation window; executions of the real packetmap.Map and of the real rtpDownTrack.Write on TLC-simulated and boundary-biased histories (incl. >65536-packet runs) are validated step by step by TLC against the same spec at the real constants, the verdict coming from the monitor fed with logged outcomes only.",
